@@ -273,8 +273,15 @@ pub async fn run_case(case: &Case, ch: &mut dyn Choose) -> Outc {
         if out.stopped {
             out.violations.push(("connection ended during a healthy exchange".into(), format!("{:?}", app.stops())));
         } else if out.responses != expected.len() {
+            // protocol packets (everything but PUBLISH) go through a buffering service that holds
+            // at most 16 requests; bursts beyond that are a class of their own (DESIGN.md §10.2)
+            let protocol_packets = case.reqs.iter().filter(|r| !matches!(r, Req::Pub0 | Req::Pub1 | Req::Pub2)).count();
             out.violations.push((
-                "a response is missing at final quiescence".into(),
+                if protocol_packets > 16 {
+                    "a response is missing at final quiescence (burst with more than 16 protocol packets, the connection stops reading)".to_string()
+                } else {
+                    "a response is missing at final quiescence".to_string()
+                },
                 format!("{} of {} responses on the wire; expected {:?}", out.responses, expected.len(), expected),
             ));
         }
